@@ -49,6 +49,9 @@ def make_obs(ctx):
                       bounds=dict(b, dates='every business-day-of-month date of %d..%d' % (lo, hi),
                                   target='business day 1..20 (higher ones are outside: not every month has them)'),
                       remove_bodies=P(['bizda'])))
+        for nm in ((1, 3, 12) if ctx.tier == 'quick' else (1, 2, 3, 4, 6, 12)):
+            obs.append(Ob('dround-cocl-mon:%d:%d-%d' % (nm, lo, hi), H, 'h_dround_cocl_mon', dict(d, NMON=nm), units=UNITS,
+                          group='dround-cocl-mon', bounds=dict(b, target='/%dmo, both directions' % nm), remove_bodies=P(['ymd'])))
         # weekday rounding goes through day numbers: dates from 4094 on fall under the day-number cut-off
         # (C01's listed finding daisy_tail) and are outside here
         if lo <= 4093:
